@@ -30,8 +30,18 @@ def c03_slot_watcher_registered_in_callback():
     return None if log == ['a'] else f"a watcher registered by a callback was invoked for the event being dispatched: {log}"
 
 
+def c16_selector_schema_unnamed_object():
+    """selector_schema built anyOf from objects.values() (the names) but enum from the objects"""
+    class P(param.Parameterized):
+        s = param.Selector(objects={'a': 1}, check_on_set=False)
+    p = P(); p.s = 'x'
+    sch = p.param.schema()['s']
+    types = [t['type'] for t in sch.get('anyOf', [])]
+    return None if 'string' in types else f"state s='x' is valid, schema {sch} has no string alternative"
+
+
 if __name__ == '__main__':
-    for f in [c03_slot_watcher_list_mutated, c03_slot_watcher_registered_in_callback]:
+    for f in [c03_slot_watcher_list_mutated, c03_slot_watcher_registered_in_callback, c16_selector_schema_unnamed_object]:
         try: r = f()
         except Exception as e: r = f'demo crashed: {type(e).__name__}: {e}'
         print(f'{f.__name__:44s}', 'DEFECT: ' + r if r else 'ok')
